@@ -58,6 +58,26 @@ def _zoo() -> dict[str, Any]:
     Z["cumsum_reverse"] = lambda x: lax.cumsum(x, axis=0, reverse=True)
     Z["sort_descending_multi"] = lambda x: lax.sort((x, -x), num_keys=2)[1]
     Z["reduce_window_custom"] = lambda x: lax.reduce_window(x, -jnp.inf, lax.max, (2,), (1,), "VALID")
+    # supported primitive, unsupported *parameter value*: either refused or computed like JAX
+    Z["reduce_max_init_posinf"] = lambda x: lax.reduce(x, jnp.float32(jnp.inf), lambda a, b: jnp.maximum(a, b), (0,))
+    Z["reduce_min_init_neginf"] = lambda x: lax.reduce(x, jnp.float32(-jnp.inf), lambda a, b: jnp.minimum(a, b), (0,))
+    Z["reduce_max_init_neginf_identity"] = lambda x: lax.reduce(x, jnp.float32(-jnp.inf), lambda a, b: jnp.maximum(a, b), (0,))
+    Z["reduce_max_init_finite"] = lambda x: lax.reduce(x, jnp.float32(1.2), lambda a, b: jnp.maximum(a, b), (0,))
+    Z["reduce_min_init_finite"] = lambda x: lax.reduce(x, jnp.float32(0.7), lambda a, b: jnp.minimum(a, b), (0,))
+    Z["reduce_add_init_nonzero"] = lambda x: lax.reduce(x, jnp.float32(2.5), lambda a, b: a + b, (0,))
+    Z["reduce_mul_init_two"] = lambda x: lax.reduce(x, jnp.float32(2.0), lambda a, b: a * b, (0,))
+    Z["reduce_window_max_init_posinf"] = lambda x: lax.reduce_window(x, jnp.inf, lax.max, (2,), (1,), "VALID")
+    Z["reduce_window_min_init_neginf"] = lambda x: lax.reduce_window(x, -jnp.inf, lax.min, (2,), (1,), "VALID")
+    Z["reduce_window_add_init_nonzero"] = lambda x: lax.reduce_window(x, 0.5, lax.add, (2,), (1,), "VALID")
+    Z["reduce_window_max_init_finite"] = lambda x: lax.reduce_window(x, 1.2, lax.max, (2,), (1,), "SAME")
+    Z["cumsum_reverse_and_exclusive_like"] = lambda x: lax.cumsum(x, axis=0, reverse=True) - x
+    Z["pad_negative_low"] = lambda x: lax.pad(x, 0.5, [(-1, 2, 0)])
+    Z["pad_interior"] = lambda x: lax.pad(x, 0.5, [(0, 0, 1)])
+    Z["clamp_min_above_max"] = lambda x: lax.clamp(1.2, x, 0.8)
+    Z["integer_pow_negative"] = lambda x: lax.integer_pow(x, -2)
+    Z["top_k_all"] = lambda x: lax.top_k(x, 3)[1].astype(jnp.float32) + lax.top_k(x, 3)[0]
+    Z["argsort_descending_stable_ties"] = lambda x: jnp.argsort(jnp.round(x), descending=True, stable=True).astype(jnp.float32)
+    Z["round_to_nearest_even_flag"] = lambda x: lax.round(x * 3.0, lax.RoundingMethod.TO_NEAREST_EVEN) + lax.round(x * 3.0, lax.RoundingMethod.AWAY_FROM_ZERO)
     Z["dynamic_update_oob"] = lambda x: lax.dynamic_update_slice(x, jnp.ones((2,), x.dtype), (2,))
     return Z
 
